@@ -3,9 +3,14 @@ package fsad
 import (
 	"errors"
 	"fmt"
+	"github.com/hack-pad/hackpadfs/mem"
+	"github.com/hack-pad/hackpadfs/mount"
+	hpos "github.com/hack-pad/hackpadfs/os"
 	"io"
 	"math"
+	"os"
 	"sort"
+	"strings"
 
 	"github.com/hack-pad/hackpadfs"
 	"verif/harness/engine"
@@ -22,6 +27,8 @@ type DConfig struct {
 	Reference   bool
 	// MkDirFS returns a file system already populated for k children.
 	MkDirFS func(k int) (hackpadfs.FS, func(), error)
+	// MountChild: a child that is itself a mount point; only its name and kind must agree with Stat (C16)
+	MountChild string
 }
 
 // ChildName returns the i-th (1-based) child name; odd children are files, even ones directories.
@@ -29,9 +36,13 @@ func ChildName(i int) string { return fmt.Sprintf("c%02d", i) }
 func ChildIsDir(i int) bool  { return i%2 == 0 }
 
 // PopulateDir builds the DirH fixture on a writable FS.
-func PopulateDir(fs hackpadfs.FS, k int) error {
-	if err := hackpadfs.Mkdir(fs, "d", 0755); err != nil {
-		return err
+func PopulateDir(fs hackpadfs.FS, k int) error { return populateDir(fs, k, true) }
+
+func populateDir(fs hackpadfs.FS, k int, mkD bool) error {
+	if mkD {
+		if err := hackpadfs.Mkdir(fs, "d", 0755); err != nil {
+			return err
+		}
 	}
 	if err := hackpadfs.WriteFullFile(fs, "f", []byte("x"), 0644); err != nil {
 		return err
@@ -80,6 +91,69 @@ func Writable(mk func() (hackpadfs.FS, func(), error)) func(int) (hackpadfs.FS, 
 			return nil, nil, err
 		}
 		return fs, cl, nil
+	}
+}
+
+// ComposedDir builds the DirH fixture behind a composition layer (C16 names mount, Sub, cache, tar and os.FS):
+//
+//	oshp      hackpadfs os.FS rooted in a fresh directory
+//	mntat     mount.FS, the listed directory "d" is a mount point (its children live in the mounted file system)
+//	mntbelow  mount.FS, a child directory of "d" is a mount point
+//	sub       Sub view of a directory of mem.FS
+//	cache     cache.ReadOnlyFS over the populated source
+//	tar       tar.ReaderFS unpacked from an archive of the populated tree
+func ComposedDir(kind string) func(int) (hackpadfs.FS, func(), error) {
+	return func(k int) (hackpadfs.FS, func(), error) {
+		none := func() {}
+		switch kind {
+		case "oshp":
+			tmp, err := os.MkdirTemp(tmpBase(), "verif-dirh-")
+			if err != nil {
+				return nil, nil, err
+			}
+			fs, err := hpos.NewFS().Sub(strings.TrimPrefix(tmp, "/"))
+			if err == nil {
+				err = PopulateDir(fs, k)
+			}
+			return fs, func() { _ = os.RemoveAll(tmp) }, err
+		case "mntat":
+			root, _ := mem.NewFS()
+			if err := hackpadfs.Mkdir(root, "d", 0755); err != nil {
+				return nil, nil, err
+			}
+			inner, _ := mem.NewFS()
+			mfs, _ := mount.NewFS(root)
+			if err := mfs.AddMount("d", inner); err != nil {
+				return nil, nil, err
+			}
+			return mfs, none, populateDir(mfs, k, false)
+		case "mntbelow":
+			root, _ := mem.NewFS()
+			mfs, _ := mount.NewFS(root)
+			if err := PopulateDir(mfs, k); err != nil {
+				return nil, nil, err
+			}
+			if k >= 2 { // the first child directory becomes a mount point
+				inner, _ := mem.NewFS()
+				if err := mfs.AddMount("d/"+ChildName(2), inner); err != nil {
+					return nil, nil, err
+				}
+			}
+			return mfs, none, nil
+		case "sub":
+			base, _ := mem.NewFS()
+			if err := hackpadfs.MkdirAll(base, "x/y", 0755); err != nil {
+				return nil, nil, err
+			}
+			view, err := hackpadfs.Sub(base, "x/y")
+			if err == nil {
+				err = PopulateDir(view, k)
+			}
+			return view, none, err
+		case "cache", "tar":
+			return ComposeFrom(kind)(nil, func(fs hackpadfs.FS) error { return PopulateDir(fs, k) })
+		}
+		return nil, nil, fmt.Errorf("unknown composed dir kind %q", kind)
 	}
 }
 
@@ -202,6 +276,12 @@ func (in *DInst) checkEntries(ents []hackpadfs.DirEntry, seen map[string]bool, s
 		}
 		if e.Type() != st.Mode().Type() {
 			problems = append(problems, "kind-disagrees-with-stat")
+		}
+		if name == in.cfg.MountChild {
+			if info.Name() != name || info.IsDir() != st.IsDir() {
+				problems = append(problems, "info-disagrees-with-stat")
+			}
+			continue
 		}
 		if info.Name() != name || info.IsDir() != st.IsDir() || info.Mode() != st.Mode() || (!st.IsDir() && info.Size() != st.Size()) {
 			problems = append(problems, "info-disagrees-with-stat")
